@@ -34,14 +34,27 @@ EXPECTED_COLUMNS = {
     "_format_callstack": ["show_timestamp", "show_tid", "show_process"],
 }
 
+# Who may write the thread/process tables, identified by what triggers the write (the decoded record kind, or the part of
+# the container format), never by the name of the function that happens to contain the store.
 REVIEWED_WRITERS = {
-    ("pykdebugparser.kd_buf_parser", "set_thread_map"): "the dump's thread map",
-    ("pykdebugparser.kd_buf_parser", "parse_v3"): "log records naming a process and a thread",
-    ("pykdebugparser.trace_handlers.trace", "handle_trace_data_newthread"): "new-thread record carries tid and pid",
-    ("pykdebugparser.trace_handlers.trace", "handle_trace_data_thread_terminate_pid"): "terminate-pid record",
-    ("pykdebugparser.trace_handlers.trace", "handle_trace_string_newthread"): "name for the pid of the thread's own new-thread record",
-    ("pykdebugparser.trace_handlers.trace", "handle_trace_string_exec"): "name for the pid of the thread's own exec record",
-    ("pykdebugparser.trace_handlers.perf", "handle_thd_data"): "sampler thread-info record carries pid and tid",
+    "container:thread-map": "the dump's thread map (clear + fill)",
+    "container:log-record": "log records naming a process and a thread",
+    "decoder:TRACE_DATA_NEWTHREAD": "new-thread record carries tid and pid",
+    "decoder:TRACE_DATA_THREAD_TERMINATE_PID": "terminate-pid record",
+    "decoder:TRACE_STRING_NEWTHREAD": "name for the pid of the thread's own new-thread record",
+    "decoder:TRACE_STRING_EXEC": "name for the pid of the thread's own exec record",
+    "decoder:PERF_THD_Data": "sampler thread-info record carries pid and tid",
+    "decoder:PERF_Event": "sampler trace decodes its nested thread-info record",
+}
+
+
+# what each reviewed decoder stores: (table, atoms of the key, atoms of the value) in the vocabulary of decoders.classify
+WRITER_CONTRACT = {
+    "decoder:TRACE_DATA_NEWTHREAD": [("threads_pids", {("START", 0)}, {("START", 1)})],
+    "decoder:TRACE_DATA_THREAD_TERMINATE_PID": [("threads_pids", {("START.tid",)}, {("START", 0)})],
+    "decoder:PERF_THD_Data": [("threads_pids", {("START", 1)}, {("START", 0)})],
+    "decoder:TRACE_STRING_NEWTHREAD": [("pids_names", {("TABLE", "last_data_newthread"), ("START.tid",)}, {("START.data",)})],
+    "decoder:TRACE_STRING_EXEC": [("pids_names", {("TABLE", "last_data_exec"), ("START.tid",)}, {("START.data",)})],
 }
 
 
@@ -136,23 +149,27 @@ def check(repo: Repo, run: Run) -> None:
     run.ob("R2", MOD, "PyKdebugParser.__init__", "tables created once as fresh dicts", {"threads_pids", "pids_names"} <= fresh,
            "PyKdebugParser.__init__ does not create threads_pids and pids_names as two fresh dicts", nontrivial=False)
     n_sites = 0
-    for mname in ("_kevents", "kevents", "os_log_events", "traces"):
-        if mname not in pk.methods:
-            continue
-        rec = interp.run(pk.module, pk.methods[mname], self_cls=pk)
+    seen_sites = set()
+    built = set()
+    for mname, mfn in pk.methods.items():
+        rec = interp.run(pk.module, mfn, self_cls=pk)
         for c in rec.calls:
-            if c.func.op == "class" and c.func.a[0].endswith(("KdBufParser", "TracesParser")) and c.where.endswith("." + mname):
+            if c.func.op == "class" and c.func.a[0].endswith(("KdBufParser", "TracesParser")) and (c.lineno, c.col) not in seen_sites:
+                seen_sites.add((c.lineno, c.col))
                 n_sites += 1
                 args = c.args[-2:] if c.func.a[0].endswith("TracesParser") else c.args[:2]
                 kw = dict(c.kwargs)
                 args = (kw.get("threads_pids", args[0] if args else None), kw.get("pids_names", args[1] if len(args) > 1 else None))
                 ok = args == (tp_t, pn_t)
                 cls_name = c.func.a[0].rsplit(".", 1)[-1]
-                run.ob("R2", MOD, f"PyKdebugParser.{mname}", f"{cls_name} receives the facade's own tables", ok,
+                built.add(cls_name)
+                run.ob("R2", MOD, c.where.replace(MOD + ".", ""), f"{cls_name} receives the facade's own tables", ok,
                        "" if ok else f"{cls_name}(...) is given {[sym.pretty(a)[:40] if a is not None else None for a in args]} "
                                      f"instead of self.threads_pids, self.pids_names: the formatter no longer sees what the dump declares",
                        line=c.lineno)
-    run.floor("R2", "parser construction sites", n_sites, 3)
+    run.ob("R2", MOD, "PyKdebugParser", "container parser and trace decoder are built by the facade", built == {"KdBufParser", "TracesParser"},
+           f"the facade builds {sorted(built)}; both KdBufParser and TracesParser must be given its tables", nontrivial=False)
+    run.floor("R2", "parser construction sites", n_sites, 2)
     for modname, cname, pos in (("kd_buf_parser", "KdBufParser", (1, 2)), ("traces_parser", "TracesParser", (2, 3))):
         ci = repo.cls(modname, cname)
         fn = ci.methods["__init__"]
@@ -160,10 +177,7 @@ def check(repo: Repo, run: Run) -> None:
         for attr, idx in zip(("threads_pids", "pids_names"), pos):
             pname = fn.args.args[idx].arg
             st = [e for e in rec.effects if e.kind == "attr-store" and e.key == attr]
-            ok = len(st) == 1 and not st[0].pc and (
-                st[0].value == param(pname) or
-                (st[0].value.op == "ite" and st[0].value.a[2] == param(pname) and st[0].value.a[1].op == "dict"
-                 and st[0].value.a[0] == T("cmp", ("is", param(pname), const(None)))))
+            ok = len(st) == 1 and not st[0].pc and _same_or_default(st[0].value, param(pname))
             run.ob("R2", ci.module.name, f"{cname}.__init__", f"{attr} stored without copying", ok,
                    "" if ok else f"{cname}.__init__ stores {sym.pretty(st[0].value)[:60] if st else 'nothing'} as self.{attr}: a copy "
                                  f"(or a different object) breaks the sharing with the formatter", line=fn.lineno)
@@ -243,40 +257,98 @@ def check(repo: Repo, run: Run) -> None:
                f"the process column of {name} is not computed from the emitting thread's id ({sym.pretty(want)})", line=fn.lineno)
 
     # ------------------------------------------------------------------ R4 who may write
-    found_writers: Dict = {}
+    PARSER_P = param("parser")
 
-    def note_writer(module, scope, e):
+    def table_write(e):
         pth = e.path if e.path is not None else e.base
         cur = pth
-        while cur.op in ("sub",):
+        while cur is not None and cur.op in ("sub", "mut"):
             cur = cur.a[0]
-        if cur.op == "attr" and cur.a[1] in ("threads_pids", "pids_names") and cur.a[0] in (SELF, param("parser")) \
+        if cur is not None and cur.op == "attr" and cur.a[1] in ("threads_pids", "pids_names") and cur.a[0] in (SELF, PARSER_P) \
                 and e.kind in ("sub-store", "mut-call", "del-sub"):
-            if e.kind == "mut-call" and e.key in ("get", "keys", "values", "items"):
-                return
-            found_writers.setdefault((module, scope), []).append(e)
+            return not (e.kind == "mut-call" and e.key in ("get", "keys", "values", "items", "copy"))
+        return False
 
-    for mod, ci, fn in units:
-        if ci.name in ("KdBufParser", "TracesParser", "CallstacksParser", "PyKdebugParser"):
-            rec = interp.run(mod, fn, self_cls=ci)
+    found_writers: Dict[str, list] = {}
+    log_call = T("attr", (T("class", ("pykdebugparser.os_log_event.OsLogEvent",)), "from_raw_log_event"))
+    kb = repo.cls("kd_buf_parser", "KdBufParser")
+    for mname, fn in kb.methods.items():
+        if mname == "__init__":
+            continue
+        rec = interp.run(kb.module, fn, self_cls=kb)
+        for e in rec.effects:
+            if not table_write(e):
+                continue
+            terms = [t_ for t_ in (e.key if isinstance(e.key, T) else None, e.value) if t_ is not None] + list(e.args)
+            from_log = any(x.op == "call" and x.a[0] == log_call for t_ in terms for x in sym.walk(t_))
+            from_map = any(x.op == "elem" for t_ in terms for x in sym.walk(t_)) and not from_log
+            fills_map = any(table_write(o) and o.kind == "sub-store" and not any(
+                x.op == "call" and x.a[0] == log_call for t_ in (o.key, o.value) if isinstance(t_, T) for x in sym.walk(t_))
+                and any(x.op == "elem" for t_ in (o.key, o.value) if isinstance(t_, T) for x in sym.walk(t_)) for o in rec.effects)
+            is_map_clear = e.kind == "mut-call" and e.key == "clear" and fills_map
+            ident = "container:log-record" if from_log else (
+                "container:thread-map" if (from_map or is_map_clear)
+                else f"container:{mname}:{e.kind}:{e.key if e.kind == 'mut-call' else ''}")
+            found_writers.setdefault(ident, []).append((kb.module.name, mname, e))
+    for ci_name, modname in (("TracesParser", "traces_parser"), ("CallstacksParser", "callstacks_parser"), ("PyKdebugParser", "pykdebugparser")):
+        ci = repo.cls(modname, ci_name)
+        for mname, fn in ci.methods.items():
+            if mname == "__init__":
+                continue
+            rec = interp.run(ci.module, fn, self_cls=ci)
             for e in rec.effects:
-                if e.func.endswith("." + fn.name):
-                    note_writer(mod.name, fn.name, e)
+                if table_write(e) and e.func.startswith(ci.qualname):
+                    found_writers.setdefault(f"{ci_name}.{mname}", []).append((ci.module.name, mname, e))
     for e_ in D.entries():
         d = D.decode(e_)
-        for ef in d.rec.effects:
-            note_writer(module_of_func(ef.func), ef.func.rsplit(".", 1)[-1], ef)
-    for (module, scope), effs in sorted(found_writers.items()):
-        ok = (module, scope) in REVIEWED_WRITERS
-        run.ob("R4", module, scope, "writer of the thread/process tables is in the reviewed set", ok,
-               "" if ok else f"{scope} writes the thread/process tables ({effs[0].kind} {effs[0].key if effs[0].kind == 'mut-call' else ''}) "
+        recs = [d.rec] + ([d.str_rec] if d.str_rec is not None else [])
+        for r_ in recs:
+            for ef in r_.effects:
+                if table_write(ef):
+                    found_writers.setdefault(f"decoder:{e_.key}", []).append((e_.module.name, e_.func_name, ef))
+    for ident, effs in sorted(found_writers.items()):
+        ok = ident in REVIEWED_WRITERS
+        m_, fn_, e0 = effs[0]
+        run.ob("R4", m_, fn_, f"writer of the thread/process tables: {ident}", ok,
+               "" if ok else f"{ident} writes the thread/process tables ({e0.kind} {e0.key if e0.kind == 'mut-call' else ''} in {fn_}) "
                              f"but is not one of the reviewed writers (thread map, log extension, new-thread, terminate-pid, sampler "
                              f"thread-info, new-thread/exec names): the process named for a thread no longer follows the dump's "
-                             f"declarations", facts={"reviewed": REVIEWED_WRITERS.get((module, scope))}, line=effs[0].lineno)
+                             f"declarations", facts={"reviewed": REVIEWED_WRITERS.get(ident)}, line=e0.lineno)
+    for ident, contract in WRITER_CONTRACT.items():
+        for m_, fn_, e0 in found_writers.get(ident, []):
+            if e0.kind != "sub-store":
+                run.ob("R4", m_, fn_, f"{ident}: stores one entry", False,
+                       f"{ident} performs {e0.kind} {e0.key} on the thread/process tables instead of storing one entry", line=e0.lineno)
+                continue
+            pth = e0.path if e0.path is not None else e0.base
+            while pth.op in ("sub", "mut"):
+                pth = pth.a[0]
+            table = pth.a[1]
+            ka = {a for a in decoders.classify(e0.key) if a[0] != "EXT"}
+            va = {a for a in decoders.classify(e0.value) if a[0] != "EXT"}
+            ok = any(table == t_ and ka == k_ and va == v_ for t_, k_, v_ in contract)
+            run.ob("R4", m_, fn_, f"{ident}: {table}[record's own id] = record's own value", ok,
+                   "" if ok else f"{ident} stores {table}[{sym.pretty(e0.key)[:50]}] = {sym.pretty(e0.value)[:50]} "
+                                 f"(key from {decoders.fmt_atoms(ka)}, value from {decoders.fmt_atoms(va)}); the record declares "
+                                 f"{[(t_, decoders.fmt_atoms(k_), decoders.fmt_atoms(v_)) for t_, k_, v_ in contract]}: the wrong "
+                                 f"thread or process is (re)declared", facts={"key": decoders.fmt_atoms(ka), "value": decoders.fmt_atoms(va)},
+                   line=e0.lineno)
     missing = [k for k in REVIEWED_WRITERS if k not in found_writers]
     run.ob("R4", MOD, "whole package", "every reviewed writer still updates the tables", not missing,
-           f"{[m[1] for m in missing]} no longer update the thread/process tables: later lines name a stale process",
-           facts={"writers": sorted(f"{m}:{s}" for m, s in found_writers)})
+           f"{missing} no longer update the thread/process tables: later lines name a stale process",
+           facts={"writers": sorted(found_writers)})
+
+
+def _same_or_default(v: T, p_: T) -> bool:
+    """v is the parameter itself, or `{} if p is None else p` in either orientation."""
+    if v == p_:
+        return True
+    if v.op == "ite":
+        atom, pol = render.norm_bool(v.a[0])
+        if atom == T("cmp", ("is", p_, const(None))):
+            none_side, other = (v.a[1], v.a[2]) if pol else (v.a[2], v.a[1])
+            return other == p_ and none_side.op == "dict" and not none_side.a[0]
+    return False
 
 
 def module_of_func(qual: str) -> str:
